@@ -75,7 +75,36 @@ def write_sites(prog, an, ca):
                 out.append({"body": cb, "block": blk, "kind": w["kind"], "adt": w["adt"], "field": w["field"], "val": lv, "key": lk, "src": ls, "via": b.path, "w": w})
         else:
             out.append({"body": b, "block": w["block"], "kind": w["kind"], "adt": w["adt"], "field": w["field"], "val": val, "key": key, "src": src, "via": None, "w": w})
-    return out
+    return [lift_for_each(prog, an, x) for x in out]
+
+
+def lift_for_each(prog, an, site, depth=0):
+    """A write made by the closure of `iter.for_each(|elem| ..)` is a write per element of `iter`, seen from the
+    function that owns the iteration (the same shape as `map.extend(iter.map(|elem| (key, value)))`)."""
+    b = site["body"]
+    if depth > 3 or b.kind != "Closure" or site["src"] is not None:
+        return site
+    if any(s["rv"]["adt"].endswith("::FlowSetBody") for (_, _, s) in block_aggs(b)):
+        return site
+    parent, clo = an.parent_of_closure(b)
+    if parent is None or clo is None:
+        return site
+    ELEM = ("sym", "elem")
+    for blk, t, c in parent.calls():
+        if c is None or c.nsyn != "std::iter::Iterator::for_each" or len(t["args"]) != 2:
+            continue
+        a1 = peel(an.op(parent, t["args"][1]), identity=(), casts=False)
+        if a1[0] == "closure" and a1[1] == b.path:
+            mapping = {1: clo, 2: ELEM}
+            chain = list(site.get("chain", []))
+            if site["via"]:
+                chain.append((site["w"]["body"], site["w"]["block"]))
+            chain.append((b, site["block"]))
+            new = dict(site, body=parent, block=blk, kind="extend",
+                       val=an.simp(an.interp.subst(site["val"], mapping)), key=an.simp(an.interp.subst(site["key"], mapping)),
+                       src=an.op(parent, t["args"][0]), via=site["via"] or b.path, chain=chain)
+            return lift_for_each(prog, an, new, depth + 1)
+    return site
 
 
 def is_template_parse_payload(an, prog, e, body, adt, field):
@@ -175,14 +204,15 @@ def rule_template_reaches_cache(ctx, prog, an, rule, ca=None, only_adt=None):
                                else "every path to the reported FlowSetBody::%s passes the cache write%s" % (variant, (" (via helper %s)" % w["via"]) if w["via"] else ""), site=b.line(ob))
                     # the helper itself must write unconditionally
                     if w["via"]:
-                        hb = w["w"]["body"]
-                        hloops = [c for c in hb.sccs() if w["w"]["block"] in c]
-                        if hloops:
-                            from .c01 import has_cycle
-                            byp = has_cycle(hb, set(min(hloops, key=len)) - {w["w"]["block"]})
-                        else:
-                            rets = [x for x in hb.reachable(0, without_blocks=(w["w"]["block"],)) if hb.term(x)["k"] == "return"]
-                            byp = bool(rets)
+                        byp = False
+                        for hb, hblk in (w.get("chain") or [(w["w"]["body"], w["w"]["block"])]):
+                            hloops = [c for c in hb.sccs() if hblk in c]
+                            if hloops:
+                                from .c01 import has_cycle
+                                byp = byp or has_cycle(hb, set(min(hloops, key=len)) - {hblk})
+                            else:
+                                rets = [x for x in hb.reachable(0, without_blocks=(hblk,)) if hb.term(x)["k"] == "return"]
+                                byp = byp or bool(rets)
                         ctx.ob(rule, adt, "helper-writes-unconditionally:%s" % field, not byp, "helper %s %s" % (w["via"], "can return without writing" if byp else "always performs the write"))
                     rep = peel(an.op(b, s["rv"]["ops"][0]))
                     okp, _ = is_template_parse_payload(an, prog, rep, b, adt, field)
